@@ -79,6 +79,7 @@ type FuncContract struct {
 	Ensures  []*Clause
 	Lets     []*Let
 	Modifies []*Expr
+	Hide     map[string][]string // callee (suffix of its key) -> labels of ensures not to assume
 	ModGiven bool
 	Invs     []*Clause // loop invariants (Loop = ordinal)
 	Decs     []*Clause
@@ -112,7 +113,7 @@ type ContractFile struct {
 
 var clauseKeywords = map[string]bool{"func": true, "spec": true, "lemma": true, "global": true, "import": true, "axiom": true, "guarded": true,
 	"pure": true, "requires": true, "ensures": true, "modifies": true, "let": true, "letpost": true, "loop": true, "trusted": true,
-	"use": true, "panics": true}
+	"use": true, "panics": true, "hide": true}
 
 // parseContractFile reads a contract file and returns its blocks.
 func parseContractFile(path, pkgPath string) (*ContractFile, error) {
@@ -238,6 +239,22 @@ func parseContractText(path, pkgPath, text string) (*ContractFile, error) {
 				return nil, fail(fmt.Errorf("clause outside func block"))
 			}
 			switch kw {
+			case "hide":
+				// hide callee[label, ...]: those callee postconditions are not assumed while this
+				// function is verified (dropping an assumption is sound; it keeps queries small)
+				r := strings.TrimSpace(rest)
+				name, labels := r, []string{"*"}
+				if i := strings.Index(r, "["); i > 0 && strings.HasSuffix(r, "]") {
+					name = strings.TrimSpace(r[:i])
+					labels = nil
+					for _, l := range strings.Split(r[i+1:len(r)-1], ",") {
+						labels = append(labels, strings.TrimSpace(l))
+					}
+				}
+				if cur.Hide == nil {
+					cur.Hide = map[string][]string{}
+				}
+				cur.Hide[name] = append(cur.Hide[name], labels...)
 			case "pure":
 				cur.Pure = true
 			case "panics":
@@ -848,6 +865,12 @@ func (p *exprParser) parsePrimary() (*Expr, error) {
 		switch t.text {
 		case "true", "false":
 			return &Expr{Op: "bool", Bool: t.text == "true"}, nil
+		case "map":
+			// a map type used as conversion: map[string]interface{}(x) -- read the type up to "("
+			if p.isOp("[") {
+				ts := "map" + p.typeSrcUntil("(")
+				return &Expr{Op: "type", TypeSrc: ts}, nil
+			}
 		case "nil":
 			return &Expr{Op: "nil"}, nil
 		case "forall", "exists":
